@@ -321,9 +321,9 @@ def run(ctx, col, tier):
             if isinstance(c, ast.Call) and dotted(c.func) == "_get_idx" and len(c.args) == 2:
                 a1 = norm_src(c.args[1])
                 if a1 == "len(self)":
-                    col.ok("R-IDXNORM", dd.qualname, dd.loc(c), "the key is normalised against the container's own length", norm_src(c), stmt="own-length")
+                    col.ok("R-CHAIN", dd.qualname, dd.loc(c), "the key is normalised against the container's own length", norm_src(c), stmt="own-length")
                 elif a1.startswith("len(self.") :
-                    col.bad("R-IDXNORM", dd.qualname, dd.loc(c), "the key is normalised against the container's own length",
+                    col.bad("R-CHAIN", dd.qualname, dd.loc(c), "the key is normalised against the container's own length",
                             f"`{norm_src(c)}` normalises the key against `{a1}`, the length of an inner container, not `len(self)`: a negative index of a view / slice is "
                             f"shifted by the wrong length and raises IndexError or returns another tree", stmt="own-length", definite=True)
     # relative paths are taken by os.path.relpath, never by cutting len(root) characters off a joined path
